@@ -95,7 +95,16 @@ def confirm(seeds, pid, n):
         sh("git -C %s worktree remove --force %s" % (REPO, wt)); shutil.rmtree(wt, ignore_errors=True)
     # our checks against the patched /repo
     det = {}
-    rc, out, _ = sh("git -C %s apply %s" % (REPO, patch))
+    if os.environ.get("CONFIRM_ISOLATED"):      # checks run by engine/tryseed.py in a scratch worktree: safe to run several confirmations at once
+        chks = [pid] + (EXTRA.get(pid, []) if not os.environ.get("CONFIRM_NO_EXTRA") else [])
+        t0 = time.time()
+        rc, out, _ = sh("python3 %s/engine/tryseed.py %s quick %s" % (VERIF, patch, " ".join(chks)), cwd=VERIF, timeout=6000)
+        for m in re.finditer(r"^(C\d\d) rc=(\d+) ?(.*)$", out, re.M):
+            det[m.group(1)] = dict(rc=int(m.group(2)), signatures=m.group(3).split()[:8])
+        meta["checks_wall_s"] = round(time.time() - t0, 1)
+        rc = 1
+    else:
+        rc, out, _ = sh("git -C %s apply %s" % (REPO, patch))
     if rc == 0:
         try:
             for chk in [pid] + EXTRA.get(pid, []):
